@@ -238,6 +238,9 @@ func c12Of(w *mon.W, idx int) {
 		w.Fail("ToArray(Of(l))!=l", mon.D{"positions": trunc32(in, 12), "got": trunc32(back, 12)})
 		return
 	}
+	if !retainCheck(w, "Of", "bitmap.Of/ToArray", func() uint64 { return gen.HashWords(got) }, func() uint64 { return hashI32(back) }) {
+		return
+	}
 	member := map[int32]bool{}
 	for _, p := range in {
 		member[p] = true
